@@ -226,5 +226,27 @@ theorem fp2_is_square_agree {x : Fp2 α} {x' : Fp2 β} (rx : Rel2 v₁ v₂ d₁
       · exact absurd c2 n2
     · exact absurd c1 n1
 
+/-- a back-end whose `fp_is_square` is also right at 0 (both back-ends since the repair 59953ae) -/
+def SquareAtZero (O : FpOps α) (d : α → Prop) (v : α → ZMod p) : Prop :=
+  ∀ {a}, d a → v a = 0 → O.isSquare a = T32
+
+/-- squareness tests agree on EVERY operand when both back-ends answer true at 0 -/
+theorem isSquare_agree_full (z₁ : SquareAtZero O₁ d₁ v₁) (z₂ : SquareAtZero O₂ d₂ v₂)
+    {a : α} {a' : β} (ra : Rel v₁ v₂ d₁ d₂ a a') : O₁.isSquare a = O₂.isSquare a' := by
+  by_cases hne : v₁ a = 0
+  · rw [z₁ ra.1 hne, z₂ ra.2.1 (by rw [← ra.2.2]; exact hne)]
+  · exact isSquare_agree h₁ h₂ ra hne
+
+theorem fp2_is_square_agree_full (z₁ : SquareAtZero O₁ d₁ v₁) (z₂ : SquareAtZero O₂ d₂ v₂)
+    {x : Fp2 α} {x' : Fp2 β} (rx : Rel2 v₁ v₂ d₁ d₂ x x') : fp2_is_square O₁ x = fp2_is_square O₂ x' := by
+  have e1 := fp2_is_square_spec_full h₁ (fun {a} => z₁ (a := a)) rx.1
+  have e2 := fp2_is_square_spec_full h₂ (fun {a} => z₂ (a := a)) rx.2.1
+  rw [← rx.2.2] at e2
+  by_cases hs : IsSquare (val2 v₁ x)
+  · rw [e1.mpr hs, e2.mpr hs]
+  · by_cases hne : val2 v₁ x = 0
+    · exact absurd ⟨0, by rw [hne]; simp⟩ hs
+    · exact fp2_is_square_agree h₁ h₂ rx hne
+
 end
 end SqiProofs.GfAgree
